@@ -77,11 +77,19 @@ func ruleD1(c *Ctx) {
 			var extra []string
 			nLimits := 0
 			isByteCond := func(v ssa.Value) bool {
-				bo, ok := v.(*ssa.BinOp)
-				if !ok {
+				var opnds []ssa.Value
+				switch x := v.(type) {
+				case *ssa.BinOp:
+					opnds = []ssa.Value{x.X, x.Y}
+				case *ssa.Call: // a digit-class helper applied to the byte
+					opnds = x.Call.Args
+				default:
 					return false
 				}
-				for _, opnd := range []ssa.Value{bo.X, bo.Y} {
+				for _, opnd := range opnds {
+					if cv, ok := opnd.(*ssa.Convert); ok {
+						opnd = cv.X
+					}
 					if u, ok := opnd.(*ssa.UnOp); ok && u.Op == token.MUL {
 						if ia2, ok := u.X.(*ssa.IndexAddr); ok && ia2.X == ssa.Value(bp) {
 							return true
